@@ -468,8 +468,26 @@ def _coverage_report(scenario, cov):
     for f in files:
         tot = ex.get(f, set())
         h = hit.get(f, set()) & tot
-        out[f] = {"executed": len(h), "executable": len(tot), "percent": round(100.0 * len(h) / max(1, len(tot)), 1)}
+        out[f] = {
+            "executed": len(h),
+            "executable": len(tot),
+            "percent": round(100.0 * len(h) / max(1, len(tot)), 1),
+            "not_executed_lines": _ranges(sorted(tot - h)),
+        }
     return out
+
+
+def _ranges(lines):
+    """Compact 'a-b,c' rendering of a sorted list of line numbers (def/class/import lines
+    executed at import time are never counted as executed)."""
+    out, i = [], 0
+    while i < len(lines):
+        j = i
+        while j + 1 < len(lines) and lines[j + 1] == lines[j] + 1:
+            j += 1
+        out.append(str(lines[i]) if i == j else f"{lines[i]}-{lines[j]}")
+        i = j + 1
+    return ",".join(out)
 
 
 def report(scenario, seed, tier, results, wall, skipped, harness_errors, args):
